@@ -121,9 +121,10 @@ template<int D> void observe_iters(view_t<D>& v, std::string const& kind, std::v
 }
 
 template<int D> void run_case(long id, view_program const& p, std::string const& kind, std::vector<iop_t> const& prog, long p1, long p2) {
-	multi::array<T, D> root(make_ext<D>(p.sizes, p.firsts, std::make_index_sequence<D>{}));
+	multi::array<T, D, verif_alloc<T>> root(make_ext<D>(p.sizes, p.firsts, std::make_index_sequence<D>{}));
 	{ T k = 0; for(auto& e : root.elements()) { e = k++; } }
-	g_root = root.data_elements();
+	{ using vptr::raw; g_root = raw(root.data_elements()); }
+	vptr::events().reset();
 	any_view cur;
 	put<D>(cur, norm(root()));
 	std::ostringstream os;
@@ -139,6 +140,9 @@ template<int D> void run_case(long id, view_program const& p, std::string const&
 			else { observe_iters<V::rank_v>(v, kind, prog, p1, p2, os); }
 		}, cur);
 	}
+#if VERIF_PTR_KIND == 2
+	os << ",\"ptr_events\":" << vptr::events().total();
+#endif
 	os << "}\n";
 	std::cout << os.str() << std::flush;
 }
